@@ -68,3 +68,69 @@ impl<'a> U<'a> {
         }
     }
 }
+
+/// Byte contents that look like some other encoding or carry a marker a "helpful" reader might strip or
+/// decode: byte-order marks, hex/JSON/base64/percent/escape look-alikes, white-space framing, option-like
+/// and path-like text, NULs, the EIP-191 prefix itself, odd UTF-8. Raw-bytes commands must take them as is.
+pub const TRICKY_BYTES: &[&[u8]] = &[
+    b"\xef\xbb\xbfhello",
+    b"\xef\xbb\xbf",
+    b"\xef\xbb\xbf{\"a\":1}",
+    b"\xff\xfeh\x00i\x00",
+    b"\xfe\xff\x00h\x00i",
+    b"0xdeadbeef",
+    b"0xdeadbeef\n",
+    b"0xDEADBEEF",
+    b"0x90F8bf6A479f320ead074411a4B0e7944Ea8c9C1",
+    b"0x4f3edf983ac636a65a842ce7c78d9aa706d3b113bce9c46f30d7d21715b23b1d",
+    b"0x",
+    b"0x0",
+    b"0x00",
+    b"0X12",
+    b"deadbeef",
+    b"DEADBEEF\n",
+    b" 0xdeadbeef ",
+    b"0x de ad be ef",
+    b"{\"a\":1}",
+    b"[]",
+    b"\"quoted\"",
+    b"null",
+    b"123",
+    b"-1",
+    b"1e3",
+    b"aGVsbG8gd29ybGQ=",
+    b"%41%42%43",
+    b"\\x41\\x42",
+    b"\\n",
+    b"\\u0041",
+    b"&amp;&#65;",
+    b"  leading and trailing  ",
+    b"\tTab\t",
+    b"line1\r\nline2\r\n",
+    b"line1\nline2\n",
+    b"\n",
+    b"\r\n",
+    b"  \n",
+    b"\n\n\n",
+    b"-",
+    b"--help",
+    b"-n",
+    b"/dev/null",
+    b"@file",
+    b"a\x00b",
+    b"\x00",
+    b"trailing nul\x00",
+    b"\x00\x00\x00\x00",
+    b"\x19Ethereum Signed Message:\n5hello",
+    b"\x19Ethereum Signed Message:\n",
+    b"12abc",
+    b"5hello",
+    b"\xc3\xa9\xe4\xbd\xa0\xf0\x9f\x98\x80",
+    b"\xc0\xaf",
+    b"\xed\xa0\x80",
+    b"\xf4\x90\x80\x80",
+    b"\x80",
+    b"\xff",
+    b"\x1b[31mred\x1b[0m",
+    b"\x7f\x08\x07",
+];
